@@ -187,6 +187,10 @@ extern void cs_dut(const cs_vna *v, int k, int findex, cs_c *S);
  *             P=2 {T, MM, SO, OS, SM, OM}, P>2 dense full-matrix standards
  *   recipe 1: double reflects + through/line on every port pair
  *             (16-term: dense full-matrix standards for every P)
+ *   recipe 2: SOL reflects measured on their own port only, an isolation
+ *             standard (loads on all ports, full matrix, off-diagonal
+ *             cells explicitly zero) as the only source of the leakage
+ *             terms, through + line (8/10/14-term types, P >= 2)
  *   ev: entry-point variant 0 native, 1 alternative (line for through /
  *       double reflect, mapped for reflect), 2 everything as mapped matrix
  *   av: 0 full M, 1 rows abbreviated, 2 columns abbreviated, 3 both
